@@ -153,6 +153,28 @@ def shard_env(P, minor, av, mode, seed):
 
 
 def shard_random(P, idx, n, seed):
+    # odd shards run in a freshly started THREAD: a new thread has its own default decimal
+    # context, so a rounding mode configured on the importing thread's context does not apply
+    if idx % 2 == 1:
+        import threading
+        err = []
+
+        def body():
+            try:
+                _shard_random(P, idx, n, seed)
+            except BaseException as e:  # noqa
+                err.append(e)
+        t = threading.Thread(target=body)
+        t.start()
+        t.join()
+        P.stratum("shards-run-in-a-fresh-thread")
+        if err:
+            raise err[0]
+        return
+    _shard_random(P, idx, n, seed)
+
+
+def _shard_random(P, idx, n, seed):
     import random
     rng = random.Random("C01-rnd-%s-%s" % (seed, idx))
     h = _hook()
